@@ -287,7 +287,7 @@ func (l *ledgerRun) replayBlock(id int, oget refmodel.Getter) {
 		// the reported figure is at least half the intrinsic gas in those templates
 		// and at least the intrinsic gas in all others
 		floor := intr
-		if kind == TxSelfDestruct || kind == TxSetStorage {
+		if kind == TxSelfDestruct || kind == TxSetStorage || kind == TxExtSize {
 			floor = (intr + 1) / 2
 		}
 		if gas < floor || gas > tx.Gas() {
@@ -543,7 +543,7 @@ func (l *ledgerRun) nodeLedger(i int, n *Node) {
 			get(b.Coinbase()).Add(get(b.Coinbase()), fee)
 			val := tx.Value()
 			switch kind {
-			case TxTransfer, TxSetStorage, TxLog:
+			case TxTransfer, TxSetStorage, TxLog, TxExtSize:
 				get(from).Sub(get(from), val)
 				get(*tx.To()).Add(get(*tx.To()), val)
 			case TxForward:
@@ -563,7 +563,7 @@ func (l *ledgerRun) nodeLedger(i int, n *Node) {
 					}
 					sdAlive[caddr] = false
 				}
-			case TxCreate, TxRevert, TxOutOfGas, TxCallThenRevert, TxCreateFail:
+			case TxCreate, TxRevert, TxOutOfGas, TxCallThenRevert, TxCreateFail, TxCreateDirect:
 				// no value moves (value-less, or the execution fails and the transfer is rolled back)
 			}
 		}
